@@ -140,7 +140,7 @@ def run(ctx):
         done += 1
         k = m['kind']; key = 'c14/' + r.name[2:]; w = r.code
         try: p = rs.only()
-        except AssertionError as e:
+        except (AssertionError, KeyError, ValueError, TypeError, IndexError, ZeroDivisionError, AttributeError) as e:
             ctx.ob(key + '/paths', False, 'branch-free', w, 'one path', str(e)); continue
         if k in ('quarter', 'circle'):
             dim = m['dim']
